@@ -2,75 +2,11 @@
 `register/class.rs` (the part translated by tools/rs2lean2.py): new, get_by_mask, fmt, *, *=.
 (split out of GenRegs3.lean so that an equality that no longer holds blocks only the properties that rely on it)
 -/
-import Qvnt.Lemmas.GenPre
-import Qvnt.Lemmas.GenBits
-import Qvnt.Lemmas.GenRegs
-import Qvnt.Lemmas.Queue
-
-set_option linter.unusedSectionVars false
-
-namespace Qvnt.Gen2
-open Qvnt Qvnt.Gen
-
-variable {R : Type}
-
-section arith
-variable [Add R] [Sub R] [Mul R] [Div R] [Neg R] [Zero R] [One R] [Consts R]
-  [LE R] [DecidableLE R] [LT R] [DecidableLT R] [HasSqrt R] [RegConsts R]
-
-theorem creg_new_eq (n : Nat) : (creg_new n).toModel = CReg.new n := by
-  simp [creg_new, CReg.new, creg_with_state_eq]
-
-/-- the model's classical register as the translated record -/
-def cregOfModel (c : CReg) : CRegG := ⟨c.value, c.qNum, c.qMask⟩
-
-theorem creg_eq_of_toModel (c : CRegG) (m : CReg) (h : c.toModel = m) : c = cregOfModel m := by
-  cases c; cases m; simp [CRegG.toModel, cregOfModel] at h ⊢; exact h
-
-end arith
-
-/-! ### classical register: `get_by_mask`, `*`, `*=` (`register/class.rs`) -/
-
-theorem foldl_ext_mem {α β : Type} (f g : α → β → α) (l : List β) (a : α)
-    (H : ∀ a, ∀ b ∈ l, f a b = g a b) : l.foldl f a = l.foldl g a := by
-  induction l generalizing a with
-  | nil => rfl
-  | cons x xs ih =>
-    simp only [List.foldl_cons]
-    rw [H a x (by simp)]
-    exact ih _ (fun a b hb => H a b (by simp [hb]))
-
-/-- for a register whose mask is a machine word (always the case: `mask_of`), the gathered bits -/
-theorem creg_get_by_mask_eq (c : CRegG) (mask : Nat) (hq : c.q_mask < 2 ^ 64) :
-    creg_get_by_mask c mask = c.toModel.getByMask mask := by
-  unfold creg_get_by_mask CReg.getByMask
-  rw [bitsList_eq]
-  simp only [CRegG.toModel, Rs.enumerate, List.foldl_map]
-  have hm : mask &&& c.q_mask < 2 ^ 64 := lt_of_le_of_lt Nat.and_le_right hq
-  have hlen : (bitsIterList (mask &&& c.q_mask)).length ≤ 64 := by
-    rw [bitsIterList_eq_bitsOf _ hm, length_bitsOf _ hm]
-    exact popcount_lt_two_pow _ _ hm
-  apply foldl_ext_mem
-  intro acc p hp
-  have hi : p.2 < 64 := by
-    have := List.mem_zipIdx hp
-    omega
-  by_cases h : c.value &&& p.1 = 0
-  · simp [h]
-  · simp [h, shlW, Nat.mod_eq_of_lt hi, Nat.shiftLeft_eq,
-      Nat.mod_eq_of_lt (Nat.pow_lt_pow_right (by decide : 1 < 2) hi)]
-
-/-- the printed form (`impl Debug for CReg`) -/
-theorem creg_fmt_eq (c : CRegG) : creg_fmt c = c.toModel.debug := by
-  unfold creg_fmt CReg.debug
-  rw [bitsList_eq]
-  simp only [CRegG.toModel]
-  congr 2
-  congr 1
-  funext s i
-  by_cases h : i &&& c.value = 0 <;> simp [h]
-
-theorem creg_mul_eq (a b : CRegG) : creg_mul a b = creg_tensor_prod a b := rfl
-theorem creg_mul_assign_eq (a b : CRegG) : creg_mul_assign a b = creg_tensor_prod a b := rfl
-
-end Qvnt.Gen2
+import Qvnt.Lemmas.GenCreg.creg_new_eq
+import Qvnt.Lemmas.GenCreg.cregOfModel
+import Qvnt.Lemmas.GenCreg.creg_eq_of_toModel
+import Qvnt.Lemmas.GenCreg.foldl_ext_mem
+import Qvnt.Lemmas.GenCreg.creg_get_by_mask_eq
+import Qvnt.Lemmas.GenCreg.creg_fmt_eq
+import Qvnt.Lemmas.GenCreg.creg_mul_eq
+import Qvnt.Lemmas.GenCreg.creg_mul_assign_eq
